@@ -9,22 +9,40 @@
    (Story/Compiled.v `token`; the one way the real dict escaped that typing - an @input attribute
    named type - was fixed by 74386b3 and is watched by harness/c12.py).
 
-   Navigation half (about Engine/Engine.v `goto_rec`): exceptions of the engine model carry a kind,
-   not a message, and ValueError has three raise sites in goto_rec, so "never raises the
-   unknown-passage ValueError" is stated through `goto_rec_g unknown` = goto_rec with an arbitrary
-   computation `unknown` at that one site (goto_rec is the instance `raise ValueError`,
-   StoryWfProofs.goto_rec_is_g): the result does not depend on `unknown`, at any hop of the chain.
-   _partial: (1) it covers the goto chain (goto, jumps at any depth), not yet choose() - a choice target goes
-   through the same goto, with the same proof, but the statement over `choose` is not made here; (2) argument
-   binding (the other half of navigation safety) is the subject of Props/C07.v and of the play-through of
-   harness/c12.py.  Two genuine defects found by harness/c12.py were fixed in /repo and the model follows them:
-   `-> @join` as a JUMP was accepted (fix 3c6eb71: now a diagnostic, jump_to_join_rejected; the former proviso
-   "no jump targets @join" of parse_ok_never_unknown_passage_partial is gone) and an initial passage with a
-   required parameter was accepted (fix 15f0a5b: parse_ok_initial_startable).
+   Navigation half, the unknown-passage error (about Engine/Engine.v and Engine/EngineCheck.v): exceptions of the
+   engine model carry a kind, not a message, and ValueError has three raise sites in goto_rec, so "never raises
+   the unknown-passage ValueError" is stated by making that ONE site a parameter: `goto_rec_g unknown` is goto_rec
+   with an arbitrary computation `unknown` there (Proofs/StoryWfProofs.v), and choose_g / goto_op_g / init_g /
+   step_g / run_all_g (Proofs/StoryWfChoose.v) are choose / goto_op / init / EngineCheck.step / run_all over it
+   (step_g_is_step, run_all_g_is_run_all: the real functions are the instances `raise ValueError`).  The
+   theorems say that the result does not depend on `unknown`, i.e. the site is never reached:
+   - at any hop of a goto chain (wf_never_unknown_passage_partial, parse_ok_never_unknown_passage_partial: the
+     lemma about the chain alone, kept under its old name);
+   - by choose() with ANY integer, and by EVERY operation (choose, goto on a defined name, undo, redo, reset,
+     reads, reload, submit_inputs, rejected load, save, load) in EVERY state reachable by ANY history
+     (wf_never_unknown_passage over EngineHooks.reach; ..._slot over `played`, which adds what run_slot does
+     with the save slot; wf_history_never_unknown_passage over whole runs of run_all, where `noinit` is the
+     "Initial passage not found" site of __init__).  Earlier operations of the history are arbitrary (a host
+     goto() on an undefined name legitimately ends at the site: that is what it is for, and it changes nothing
+     the invariant speaks about); only the operation the statement is about must name a defined passage if it
+     is a goto.
+   What carries it is an invariant of all reachable states (offered_targets_defined): the target of every
+   choice in the shown output - and in the outputs kept by the undo/redo snapshots and the save slot, which
+   undo/redo/load put back - is "@join" or a defined passage, because outputs are only built by the renderer,
+   whose offered choices sit at positions of the passage the validator has walked (the positions of C18's
+   graph walk: GraphProofs.render_passage_positions).
+   NOT here: argument binding, the other ValueError of navigation (a call site whose arguments the target's
+   parameters do not accept).  It is the subject of Props/C07.v (binding = Python's call rule, for every
+   operation incl. failures) and of the call-shape play-through of harness/c12.py and harness/c07.py.
+   Two genuine defects found by harness/c12.py were fixed in /repo and the model follows them:
+   `-> @join` as a JUMP was accepted (fix 3c6eb71: now a diagnostic, jump_to_join_rejected) and an initial
+   passage with a required parameter was accepted (fix 15f0a5b: parse_ok_initial_startable).
    Carried by harness/c12.py only: JSON round trip of the real dict, argument shapes. *)
 From Coq Require Import String Ascii List Bool Arith.
 From Bardic Require Import PyStr Value Compiled Lex ParseBase ParseLine ParseMain ParseProofs.
 From Bardic Require Import Engine StoryWfProofs ParseBlocks ParseBlocksInst ParseAllProofs.
+From Coq Require Import ZArith.
+From Bardic Require Import EngineCheck EngineHooks StoryWfChoose.
 Import ListNotations.
 Local Open Scope string_scope.
 
@@ -93,6 +111,102 @@ Theorem parse_ok_never_unknown_passage_partial : forall pp is_call xs lines0 sto
 Proof. exact parse_ok_never_unknown_lemma. Qed.
 Print Assumptions parse_ok_never_unknown_passage_partial.
 
+(* -- the player's operations -- *)
+
+(* step_g / run_all_g are EngineCheck.step / run_all: the instances with the real raise at both sites *)
+Theorem step_g_is_step : forall orc ctxkeys st e o,
+  step orc ctxkeys st e o = step_g orc ctxkeys st (raise ValueError) e o.
+Proof. exact step_is_g. Qed.
+Print Assumptions step_g_is_step.
+
+Theorem run_all_g_is_run_all : forall orc ctxkeys st v0 ops,
+  run_all orc ctxkeys st v0 ops =
+  run_all_g orc ctxkeys st (raise ValueError) (fun e0 => (e0, Exc ValueError)) v0 ops.
+Proof. exact run_all_is_g. Qed.
+Print Assumptions run_all_g_is_run_all.
+
+(* the invariant: in a story whose targets are validated (story_targets_defined: every choice target at any depth
+   is "@join" or a defined passage, every jump target at any depth a defined passage), every choice offered in a
+   state reachable by any history has such a target *)
+Theorem offered_targets_defined : forall orc ctxkeys st,
+  story_targets_defined st ->
+  forall e rc, reach orc ctxkeys st e -> In rc (o_choices (current_out e)) ->
+    target_defined (passages st) (ch_target (rc_choice rc)).
+Proof. exact reach_offered_targets_defined_lemma. Qed.
+Print Assumptions offered_targets_defined.
+
+(* choose() with any integer, in any reachable state, never reaches the unknown-passage site (the whole result -
+   new state incl. both stacks and the ghost log, returned output or exception - is the same whatever stands there) *)
+Theorem wf_choose_never_unknown_passage : forall orc ctxkeys st,
+  names_plain st -> story_targets_defined st ->
+  forall unknown e i, reach orc ctxkeys st e ->
+    choose_g orc ctxkeys st unknown e i = choose orc ctxkeys st e i.
+Proof. exact wf_choose_never_unknown_lemma. Qed.
+Print Assumptions wf_choose_never_unknown_passage.
+
+(* every operation (OpGoto on a spec that names a defined passage), in any state reachable by any history *)
+Theorem wf_never_unknown_passage : forall orc ctxkeys st,
+  names_plain st -> story_targets_defined st ->
+  forall unknown e o, reach orc ctxkeys st e -> op_defined st o ->
+    step_g orc ctxkeys st unknown e o = step orc ctxkeys st e o.
+Proof. exact wf_step_never_unknown_lemma. Qed.
+Print Assumptions wf_never_unknown_passage.
+
+(* the same over the histories of run_all, where OpSave / OpLoad use the save slot (`played e slot`: reach, plus
+   "keep the core in the slot" and "put the slot's core back with empty stacks") *)
+Theorem wf_never_unknown_passage_slot : forall orc ctxkeys st,
+  names_plain st -> story_targets_defined st ->
+  forall unknown e slot o, played orc ctxkeys st e slot -> op_defined st o ->
+    step_g orc ctxkeys st unknown e o = step orc ctxkeys st e o.
+Proof. exact wf_played_never_unknown_lemma. Qed.
+Print Assumptions wf_never_unknown_passage_slot.
+
+(* whole runs, from __init__ on: what a history shows (every observation and every view) does not depend on what
+   stands at the unknown-passage site, nor on what stands at the initial-passage-not-found site *)
+Theorem wf_history_never_unknown_passage : forall orc ctxkeys st,
+  names_plain st -> story_targets_defined st -> has_key (initial st) (passages st) = true ->
+  forall unknown noinit v0 ops, Forall (op_defined st) ops ->
+    run_all_g orc ctxkeys st unknown noinit v0 ops = run_all orc ctxkeys st v0 ops.
+Proof. exact wf_run_never_unknown_lemma. Qed.
+Print Assumptions wf_history_never_unknown_passage.
+
+(* -- the same for every story the compiler model returns, with no further hypothesis -- *)
+
+Theorem parse_ok_offered_targets_defined : forall pp is_call xs lines0 story,
+  parse pp is_call xs lines0 = POk story ->
+  forall orc ctxkeys e rc, reach orc ctxkeys story e -> In rc (o_choices (current_out e)) ->
+    target_defined (passages story) (ch_target (rc_choice rc)).
+Proof. exact parse_ok_offered_targets_defined_lemma. Qed.
+Print Assumptions parse_ok_offered_targets_defined.
+
+Theorem parse_ok_choose_never_unknown_passage : forall pp is_call xs lines0 story,
+  parse pp is_call xs lines0 = POk story ->
+  forall orc ctxkeys unknown e i, reach orc ctxkeys story e ->
+    choose_g orc ctxkeys story unknown e i = choose orc ctxkeys story e i.
+Proof. exact parse_ok_choose_never_unknown_lemma. Qed.
+Print Assumptions parse_ok_choose_never_unknown_passage.
+
+Theorem parse_ok_never_unknown_passage : forall pp is_call xs lines0 story,
+  parse pp is_call xs lines0 = POk story ->
+  forall orc ctxkeys unknown e o, reach orc ctxkeys story e -> op_defined story o ->
+    step_g orc ctxkeys story unknown e o = step orc ctxkeys story e o.
+Proof. exact parse_ok_step_never_unknown_lemma. Qed.
+Print Assumptions parse_ok_never_unknown_passage.
+
+Theorem parse_ok_never_unknown_passage_slot : forall pp is_call xs lines0 story,
+  parse pp is_call xs lines0 = POk story ->
+  forall orc ctxkeys unknown e slot o, played orc ctxkeys story e slot -> op_defined story o ->
+    step_g orc ctxkeys story unknown e o = step orc ctxkeys story e o.
+Proof. exact parse_ok_played_never_unknown_lemma. Qed.
+Print Assumptions parse_ok_never_unknown_passage_slot.
+
+Theorem parse_ok_history_never_unknown_passage : forall pp is_call xs lines0 story,
+  parse pp is_call xs lines0 = POk story ->
+  forall orc ctxkeys unknown noinit v0 ops, Forall (op_defined story) ops ->
+    run_all_g orc ctxkeys story unknown noinit v0 ops = run_all orc ctxkeys story v0 ops.
+Proof. exact parse_ok_run_never_unknown_lemma. Qed.
+Print Assumptions parse_ok_history_never_unknown_passage.
+
 (* `-> @join` as a jump is a compile-time diagnostic; what the engine would do with such a story if it were
    accepted is the ValueError of join_jump_unknown (the defect F12a, fixed) *)
 Theorem jump_to_join_rejected :
@@ -124,4 +238,59 @@ Example chain_sample :
       end
   | _ => False
   end.
+Proof. vm_compute. split; reflexivity. Qed.
+
+(* a compiled story with a choice inside an @if, a choice inside a @for, a `-> @join` choice with a choice in the
+   section behind the marker, and the jump chain Cellar -> Hall -> End, played through a history with a join
+   choice, undo, the @if choice (three passages entered), save, the @for choice, two rejected indices, a host
+   goto, load, an undo on the emptied stack and three more choices: (observation, shown passage, offered
+   targets) after __init__ and after each operation.  The same history with OtherError at both sites shows
+   the same thing (an instance of parse_ok_history_never_unknown_passage, here by computation). *)
+Definition play_lines : list string :=
+  [":: Start"; "Welcome.<>";
+   "@if x:"; "  + [Cellar] -> Cellar"; "@endif";
+   "@for i in items:"; "  + [Room] -> Hall"; "@endfor";
+   "* [Rest] -> @join"; "    You rest."; "@join"; "Done."; "+ [Go] -> Hall";
+   ":: Hall"; "hall<>"; "-> End";
+   ":: Cellar"; "cellar<>"; "-> Hall";
+   ":: End"; "end<>"; "+ [Again] -> Start"].
+(* every condition holds, every collection is [1] *)
+Definition play_orc : pyorc :=
+  mkOrc (fun _ _ => Ok (VList [VInt 1])) (fun e _ => Ok e) (fun _ _ => Ok "") (fun _ _ => Ok ([], [])).
+Definition play_ops : list op :=
+  [OpChoose 0; OpUndo; OpChoose 1; OpSave; OpChoose 0; OpChoose 2; OpChoose 7; OpChoose (-1); OpGoto "Cellar";
+   OpLoad; OpUndo; OpChoose 0; OpChoose 0; OpChoose 0].
+Definition brief (r : list (obs * view)) : list (obs * string * list string) :=
+  map (fun ov => (fst ov, v_pid (snd ov), map (fun c => snd (fst c)) (v_choices (snd ov)))) r.
+
+Example play_sample :
+  match parse_real (mkPyparse (fun _ => true) (fun _ => Some (0, []))) (fun _ => true) play_lines with
+  | POk st =>
+      brief (run_all play_orc [] st [] play_ops) =
+      [(ObsOk, "Start", ["@join"; "Cellar"; "Hall"]);
+       (ObsOk, "Start", ["Hall"]);
+       (ObsBool true, "Start", ["@join"; "Cellar"; "Hall"]);
+       (ObsOk, "End", ["Start"]); (ObsOk, "End", ["Start"]);
+       (ObsOk, "Start", ["@join"; "Cellar"; "Hall"]);
+       (ObsOk, "End", ["Start"]); (ObsExc IndexError, "End", ["Start"]);
+       (ObsExc IndexError, "End", ["Start"]); (ObsOk, "End", ["Start"]);
+       (ObsOk, "End", ["Start"]); (ObsBool false, "End", ["Start"]);
+       (ObsOk, "Start", ["@join"; "Cellar"; "Hall"]);
+       (ObsOk, "Start", ["Hall"]); (ObsOk, "End", ["Start"])] /\
+      run_all_g play_orc [] st (raise OtherError) (fun e0 => (e0, Exc OtherError)) [] play_ops =
+      run_all play_orc [] st [] play_ops
+  | _ => False
+  end.
+Proof. vm_compute. split; reflexivity. Qed.
+
+(* the parameter stands at a site that IS reached when a target is not defined (a hand-built story whose only
+   choice leads to the undefined "Ghost"): choose raises the ValueError, choose_g whatever was put there *)
+Definition ghost_story : story :=
+  mkStory "Start"
+    [("Start", mkPassage "Start" [] [TText "hi"] [Choice [TText "go"] "Ghost" "" None true 0 [] []] [] [] [])] [] [].
+
+Example unknown_site_is_live :
+  let e := fst (init null_orc [] ghost_story []) in
+  snd (choose null_orc [] ghost_story e 0) = Exc ValueError /\
+  snd (choose_g null_orc [] ghost_story (raise OtherError) e 0) = Exc OtherError.
 Proof. vm_compute. split; reflexivity. Qed.
